@@ -95,7 +95,7 @@ class ImportXml:
                 return None
             op["src"] = "export"
             op["n"] = g.sel("unl", h)
-        elif r < 0.62 and len(g.V.cands("own", g.sess)) < 60 and not g.w.corpus_loaded:
+        elif r < 0.62 and ((len(g.V.cands("own", g.sess)) < 60 and not g.w.corpus_loaded) or g.cfg.get("big_world")):
             g.w.corpus_loaded = True
             op["src"] = "corpus"
             op["doc"] = "eml.xml"
@@ -105,6 +105,8 @@ class ImportXml:
                 '<a xmlns:p="u:1"><p:b k="v" p:q="w">t<c/>tail</b-x>'.replace("</b-x>", "</p:b>") + "</a>",
                 '<eml:eml xmlns:eml="https://eml.ecoinformatics.org/eml-2.2.0" packageId="x" system="y"><dataset><title>T</title></dataset></eml:eml>',
                 '<r><!-- c --><x xml:lang="en"> s </x><y xmlns:q="u:2"><q:z/></y></r>',
+                '<root xmlns="u:d" xmlns:p="u:1"><a k="v"/><p:b><c xmlns="u:e">t</c></p:b></root>',
+                '<a xmlns:p="u:1" xmlns:q="u:2"><b xmlns:q="u:2" xmlns:p="u:1"><p:c q:k="v"/></b></a>',
             ])
         return op
 
@@ -130,6 +132,41 @@ class ImportXml:
 
     def spec(self, pre, R, op, out):
         return Exp()
+
+
+@kind("json_twin")
+class JsonTwin:
+    """A working copy made the way the README suggests: from_json(to_json(doc)),
+    while the original stays alive.  The twin carries the same node ids, so the
+    registry now names the twin's nodes.  Used by the expand profile only (the
+    registry profile excludes deliberate id reuse)."""
+
+    def gen(self, g):
+        s = g.snap
+        docs = [h for h in g.V.cands("unl", g.sess) if 1 < len(s.subtree(h)) <= 200]
+        if not docs or len(g.V.cands("own", g.sess)) > g.cfg.get("eml_universe", 400):
+            return None
+        withrefs = [h for h in docs if any(s.name(d) == "references" for d in s.subtree(h))]
+        h = g.rng.choice(withrefs or docs)
+        return {"k": "json_twin", "s": g.sess, "n": g.sel("unl", h)}
+
+    def resolve(self, V, op):
+        n = V.pick("unl", op["s"], op["n"])
+        if not clean_subtree(V.s, n) or not prefix_inclusion(V.s, n):
+            raise Skip("struct")
+        return {"n": n}
+
+    def run(self, W, R, op):
+        twin = mio.from_json(mio.to_json(W.node(R["n"])))
+        if isinstance(twin, Node):
+            W.handle(twin, op["s"])
+        return twin
+
+    def spec(self, pre, R, op, out):
+        e = Exp()
+        for h in pre.subtree(R["n"]):
+            e.adopt(h, RG)         # shadowed by the twin: registry semantics under id reuse are not stated
+        return e
 
 
 # ---------------------------------------------------------------- restart
